@@ -31,7 +31,14 @@ func Run(prop string, c Case, r *pbt.Rec) error {
 	if c.PostN > 0 && len(res.Images) > 0 {
 		postEvery = len(res.Images)/c.PostN + 1
 	}
+	tornManifest := pbt.Open("C09-manifest-batch-torn") || pbt.Open("C11-manifest-batch-torn")
 	for idx, im := range res.Images {
+		if tornManifest && im.Torn && containsStr(im.Class, "manifest:") {
+			// listed finding: a multi-edit manifest batch is not atomic across a crash
+			r.Excluded(1)
+			r.Label("img:torn-manifest-batch(listed)")
+			continue
+		}
 		v, db := CheckImage(res, im, prop == "C09", prop == "C10" || prop == "C11")
 		if v.Err != nil {
 			if prop == "C11" && v.Prop != "reopen" {
